@@ -81,17 +81,29 @@ func strs(s []string) []string { return append([]string{}, s...) }
 
 // ---- option normalisation (deterministic, comparable) ----
 
-func tm(t time.Time) int64 {
-	if t.IsZero() {
-		return 0
-	}
-	return t.UnixNano()
+// Stamp is the comparable form of a time.Time: seconds and nanoseconds since the
+// epoch (UnixNano would wrap for dates after 2262 and make a time that is off
+// by 2^64 ns look right), Set false for the zero Time.
+type Stamp struct {
+	Set  bool
+	Sec  int64
+	Nsec int32
 }
+
+// TM converts a time.
+func TM(t time.Time) Stamp {
+	if t.IsZero() {
+		return Stamp{}
+	}
+	return Stamp{Set: true, Sec: t.Unix(), Nsec: int32(t.Nanosecond())}
+}
+
+func tm(t time.Time) Stamp { return TM(t) }
 
 // SetOpt is the comparable form of redis.SetOption.
 type SetOpt struct {
 	EX, PX       int64 // nanoseconds
-	EXAT, PXAT   int64 // unix nanoseconds (0 = unset)
+	EXAT, PXAT   Stamp
 	NX, XX       bool
 	KEEPTTL, GET bool
 }
@@ -102,7 +114,7 @@ func NormSet(o redis.SetOption) SetOpt {
 
 // ExpOpt is the comparable form of redis.ExpireOption.
 type ExpOpt struct {
-	Time           int64
+	Time           Stamp
 	NX, XX, GT, LT bool
 }
 
